@@ -2,6 +2,7 @@ package gen
 
 import (
 	"fmt"
+	"net"
 	"strings"
 
 	"pgregory.net/rapid"
@@ -115,8 +116,45 @@ func DrawURI(t *rapid.T) (string, string) {
 	return scheme + "://" + user + host + port + path, "grammar"
 }
 
-// DNSPool is DNSDict followed by MoreDNS.
-func DNSPool() []string { return append(append([]string{}, DNSDict...), MoreDNS...) }
+// DNSPool is DNSDict followed by MoreDNS and DerivedDNS.
+func DNSPool() []string {
+	return append(append(append([]string{}, DNSDict...), MoreDNS...), DerivedDNS()...)
+}
+
+// DerivedDNS: names computed from others. (1) Reverse-DNS names of addresses of every class under both zones -
+// public, private, loopback, unspecified, IPv4-mapped / NAT64 / 6to4 / ISATAP forms that embed a public or a
+// private IPv4 address - and their malformed neighbours (wrong label count, labels that are no octet / nibble,
+// address text of the other family inside a label, upper-case zone, trailing dot). (2) Textual relatives of names
+// with a valid TLD: the same characters with a label boundary moved, dropped or added, and last labels that
+// merely begin or end with a valid TLD - whatever compares names by prefix or suffix meets its look-alikes.
+func DerivedDNS() []string {
+	var out []string
+	rev6 := func(ip net.IP) string {
+		ip = ip.To16()
+		var ls []string
+		for i := 15; i >= 0; i-- {
+			ls = append(ls, fmt.Sprintf("%x", ip[i]&0xf), fmt.Sprintf("%x", ip[i]>>4))
+		}
+		return strings.Join(ls, ".") + ".ip6.arpa"
+	}
+	for _, a := range []string{"::ffff:8.8.8.8", "::ffff:10.0.0.1", "::", "fd00::1", "64:ff9b::808:808", "64:ff9b::a00:1", "2002:808:808::1", "2002:a00:1::1", "2001:db8::200:5efe:808:808", "fd00::5efe:808:808",
+		"2001:4860:4860::5efe:a00:1", "2606:4700:4700::1111", "ff02::1", "2001::1", "100::1"} {
+		if ip := net.ParseIP(a); ip != nil {
+			out = append(out, rev6(ip))
+		}
+	}
+	good6 := rev6(net.ParseIP("2001:4860:4860::8844"))
+	out = append(out, "0."+good6, good6[2:], strings.ToUpper(good6), good6+".", "ff"+good6[1:], strings.Replace(good6, ".ip6.arpa", ".in-addr.arpa", 1),
+		"255.255.255.255.in-addr.arpa", "0.0.0.0.in-addr.arpa", "8.8.8.::8.in-addr.arpa", "8.8.8.::ffff:8.in-addr.arpa", "08.08.08.08.in-addr.arpa", "0x8.8.8.8.in-addr.arpa", "8.8.8.8.8.in-addr.arpa",
+		"8.8.8.8.IN-ADDR.ARPA", "8.8.8.8.in-addr.arpa.", "8.8.8.8.ip6.arpa", "1.1.1.1.in-addr.arpa", "1.0.168.192.in-addr.arpa", "1.0.0.169.in-addr.arpa", "254.169.in-addr.arpa", "in-addr.arpa", "ip6.arpa", "8.8.8.8.in-addr.arpa.example.com")
+	for _, base := range []string{"www.example.net", "example.com", "shop.example.org", "example.me", "example.us"} {
+		i := strings.LastIndex(base, ".")
+		host, tld := base[:i], base[i+1:]
+		out = append(out, host+".intra"+tld, host+"."+tld+"work", host+tld, host+".x"+tld, host+"."+tld+"."+tld, host+"-"+tld, strings.Replace(host, ".", "", -1)+"."+tld, host+"."+tld+"x.invalid", "x"+host+"."+tld)
+	}
+	out = append(out, "fileserver.intranet", "printer.local", "db.internal", "nas.home", "host.localnet", "portal.corp", "www.example.airbus", "www.example.notcom")
+	return out
+}
 
 // GNPool is a fixed list of GeneralNames of every arm (with a description each), for
 // enumerated order sweeps.
